@@ -245,7 +245,7 @@ func init() {
 		Desc: "no carry-over between messages through recycled message objects and buffers",
 		Run:  runC18,
 		Quick: 64000, Thorough: 4000000, QuickSecs: 60, ThorSecs: 1500,
-		Rule:  "trains of 6-36 messages of one or two types with shrinking/growing shapes (Twalk/Twalkgetattr name lists 16->9->1->0, Twrite payloads 4096->1->0, Tread/Treaddir counts long->short->0, Tsymlink/Tmkdir/Tlock/Trenameat strings long->empty, Tsetattr/Tgetattr masks, Txattrwalk names) (one in six cut short inside its body, which must not reach the backend) on one connection and interleaved over 1-3 connections of one server process (process-wide message cache and buffer pools, emptied at run start, pool misses forced 0/20/50/90%); a quarter of the runs instead sends batches of 2-5 requests (reads of different offsets and lengths through two fids, writes, listings, getattr, walks) that are in flight together, each judged against the calls the backend received on its behalf; client side: reply trains from a fake server through the client's recycled response objects. Oracle: backend arguments (deep-copied at the call) equal the request's own fields as encoded by the independent codec; replies are what the C04 model and the call log prescribe (Rread = exactly the bytes the backend produced, Rreaddir = the whole entries that fit).",
+		Rule:  "trains of 6-36 messages of one or two types with shrinking/growing shapes (Twalk/Twalkgetattr name lists 16->9->1->0, Twrite payloads 4096->1->0, Tread/Treaddir counts long->short->0, Tsymlink/Tmkdir/Tlock/Trenameat strings long->empty, Tsetattr/Tgetattr masks, Txattrwalk names) (one in six cut short inside its body, which must not reach the backend) on one connection and interleaved over 1-3 connections of one server process (process-wide message cache and buffer pools, emptied at run start, pool misses forced 0/20/50/90%); a quarter of the runs instead sends batches of 2-5 requests (reads of different offsets and lengths through two fids, writes, listings, getattr, walks) that are in flight together, each judged against the calls the backend received on its behalf; client side: reply trains from a fake server through the client's recycled response objects, every result handed to a caller re-read after all later replies. Oracle: backend arguments (deep-copied at the call) equal the request's own fields as encoded by the independent codec; replies are what the C04 model and the call log prescribe (Rread = exactly the bytes the backend produced, Rreaddir = the whole entries that fit).",
 		Real:   []string{"p9 message registry cache", "p9 buffer pools", "p9 decode/encode", "p9.Server"},
 		Stub:   []string{"transport (simnet pipes)", "backend tree (simfs)", "raw 9P peer / fake server (refcodec)"},
 		Owns:   []string{"C04"},
